@@ -181,7 +181,9 @@ def opMonSolve (j : Json) : Json :=
       | .ok (total, r) =>
         let rows := net.exposed.map fun e1 =>
           Json.arr (net.exposed.map fun e2 => gratToJson (total.sem e1.2 e2.2)).toArray
+        let table := Monitor.tabulate (fun c => "M" ++ toString c) id r
         Json.mkObj [("T", Json.arr rows.toArray),
+                    ("table", Json.arr (table.map fun kv => Json.arr #[Json.str kv.1, gratToJson kv.2]).toArray),
                     ("links", Json.arr (r.links.map fun l => Json.arr #[toJson l.1.1, Json.str l.1.2, toJson l.2.1, Json.str l.2.2]).toArray),
                     ("inward", Json.arr (r.inward.map gratToJson).toArray),
                     ("outward", Json.arr (r.outward.map gratToJson).toArray)]
